@@ -134,13 +134,13 @@ func rulesSamWriter(c *Ctx, r *Report) {
 func rulesSamParser(c *Ctx, r *Report) {
 	f := c.role("sam.parseLine")
 	where := "formats/sam.parseLine"
-	if f == nil || len(f.Params) != 1 {
+	if f == nil || len(f.Params) < 1 || len(f.Params) > 2 {
 		r.undecided("SAM-COL", where, "anchor", "", "parseLine(line) not found")
 		return
 	}
 	r.analysed(where)
 	line := f.Params[0]
-	var rec *ssa.Alloc
+	var rec ssa.Value
 	instrs(f, func(in ssa.Instruction) {
 		if al, ok := in.(*ssa.Alloc); ok && al.Heap {
 			if n, ok := al.Type().(*types.Pointer).Elem().(*types.Named); ok && n.Obj().Name() == "SAM" {
@@ -148,6 +148,14 @@ func rulesSamParser(c *Ctx, r *Report) {
 			}
 		}
 	})
+	// the record handed in by the caller to be filled: parseLine(line, s)
+	if len(f.Params) == 2 {
+		if pt, ok := f.Params[1].Type().(*types.Pointer); ok {
+			if n, ok := pt.Elem().(*types.Named); ok && n.Obj().Name() == "SAM" {
+				rec = f.Params[1]
+			}
+		}
+	}
 	if rec == nil {
 		r.undecided("SAM-COL", where, "record", c.pos(f.Pos()), "no SAM record allocation found")
 		return
@@ -169,7 +177,7 @@ func rulesSamParser(c *Ctx, r *Report) {
 					if a == ssa.Value(line) {
 						gl = g.Params[i]
 					}
-					if a == ssa.Value(rec) {
+					if a == rec {
 						gr = g.Params[i]
 					}
 				}
